@@ -4,7 +4,7 @@ import numpy as np
 from .. import gen, monitor, oracles, refs
 from ..core import Workload
 from ..env import ptn
-from .c01 import _qd
+from .c01 import _qd, add_structure
 
 GRID = [0.0, 0.0, 1e-14, 1e-10, 1e-6, 1e-4, 1e-3, 1e-2, 0.03, 0.1, 0.2]
 
@@ -52,6 +52,13 @@ def compress_case(ctx, idx, rng):
         ctx.case(('compress', kind, 'zero-state'), nontrivial=False)
         return
     mode = ('left', 'right')[(idx // 7) % 2]
+    struct = ('none', 'none', 'dead', 'dup', 'sparse')[(idx // 14) % 5]
+    if struct != 'none':
+        psi.A = [np.array(a, dtype=complex) for a in psi.A]
+        add_structure(rng, psi, False, struct)
+        if np.linalg.norm(refs.dense_state(psi.A)) < 1e-9:
+            ctx.case(('compress', kind, 'zero-state'), nontrivial=False)
+            return
     psi.A[0] = psi.A[0] * float(rng.choice([1, 1e-5, 1e5, 3.0]))
     v0 = refs.dense_state(psi.A)
     n0 = float(np.linalg.norm(v0))
@@ -73,7 +80,7 @@ def compress_case(ctx, idx, rng):
     D_old = list(psi.bond_dims)
     ends = (psi.qD[0].copy(), psi.qD[-1].copy())
     snap = {'qd': psi.qd.copy(), 'qD': [q.copy() for q in psi.qD], 'A': [a.copy() for a in psi.A], 'tol': tol, 'mode': mode}
-    ctx.case(('compress', kind, f'L{min(L, 4)}', mode, 'tol0' if tol == 0 else tol_kind), sample={'qD': snap['qD'], 'tol': tol, 'mode': mode, 'L': L, 'd': d}, info=snap)
+    ctx.case(('compress', kind, f'L{min(L, 4)}', mode, 'tol0' if tol == 0 else tol_kind, struct), sample={'qD': snap['qD'], 'tol': tol, 'mode': mode, 'L': L, 'd': d}, info=snap)
     res = psi.compress(tol, mode)
     detail = snap
     if not ctx.ok('compress.returns-pair', isinstance(res, tuple) and len(res) == 2, f'returned {res!r}', detail):
